@@ -455,7 +455,7 @@ func (c *c33Case) wholeStateModel(init uint32) porcupine.Model {
 var c33FocusSites = []string{
 	"incr.run.beforeCAS", "incr.run.beforeExecute", "incr.run.afterExecute", "incr.run.deferred",
 	"incr.wait.parked", "incr.wait.woken", "incr.resolve.beforeRelease", "incr.resolve.afterJoin",
-	"incr.sema.beforeAcquire", "incr.evict.beforeLock", "incr.evict.locked", "incr.Run.enter", "incr.run.enter",
+	"incr.sema.beforeAcquire", "incr.evict.beforeLock", "incr.evict.locked", "incr.Run.enter", "incr.run.enter", "incr.run.follower",
 }
 
 type c33Stats struct {
@@ -714,13 +714,18 @@ func runC33Case(r *vlib.Run, c *c33Case, rng *vlib.RNG, st *c33Stats) {
 				var seen, shared uint32
 				for _, o := range ops {
 					if o.op.Kind == "evict" {
-						m := maskOf(o.op.Keys) & (1<<uint(c.g.N) - 1)
+						var m uint32
+						for _, k := range o.op.Keys {
+							if k < c.g.N {
+								m |= c.up[k]
+							}
+						}
 						shared |= seen & m
 						seen |= m
 					}
 				}
 				sw["model"] = "run: cache |= closure(roots); evict(k): drop k and its cached dependents; the final Keys() must be the cache of some linearisation"
-				viol("evict.not-linearizable", fmt.Sprintf("Keys() after a concurrent step of Runs and Evicts is not the cache of any linearisation: closed under dependencies=%v, two concurrent Evicts share a key=%v", closed, shared != 0), sw)
+				viol("evict.not-linearizable", fmt.Sprintf("Keys() after a concurrent step of Runs and Evicts is not the cache of any linearisation: closed under dependencies=%v, concurrent Evicts with overlapping reverse closures=%v", closed, shared != 0), sw)
 				return
 			case porcupine.Unknown:
 				r.Inconclusive("C33: porcupine timeout (whole-state model)")
